@@ -1099,12 +1099,14 @@ where
 
     /// Returns a guard for the pointer to the underlying memory.
     pub fn ptr_guard(&self) -> PtrGuard {
-        PtrGuard::read(self.mmap, self.addr, self.len())
+        // The guard covers bytes, not elements.
+        PtrGuard::read(self.mmap, self.addr, self.len() * self.element_size())
     }
 
     /// Returns a mutable guard for the pointer to the underlying memory.
     pub fn ptr_guard_mut(&self) -> PtrGuardMut {
-        PtrGuardMut::write(self.mmap, self.addr, self.len())
+        // The guard covers bytes, not elements.
+        PtrGuardMut::write(self.mmap, self.addr, self.len() * self.element_size())
     }
 
     /// Borrows the inner `BitmapSlice`.
